@@ -853,8 +853,8 @@ class Engine:
         if a.ty == TInt and b.ty == TBool:
             return a.t == z3.If(b.t, 1, 0)
         if a.ty == TSpace and b.ty == TSpace:
-            k = z3.Const(fresh_name("k"), Name)
-            return z3.ForAll([k], z3.If(indom(a.t, k), a.t[k], -1) == z3.If(indom(b.t, k), b.t[k], -1))
+            from . import theory as _T
+            return _T.space_eq(a.t, b.t)
         if a.ty == TSpace and isinstance(b.ty, TEmpty):
             k = z3.Const(fresh_name("k"), Name)
             return z3.ForAll([k], z3.Not(indom(a.t, k)))
